@@ -276,6 +276,14 @@ def add_locality(reqs, rng, p=0.03):
         v = list(toks)
         v[i] = "D%d:%d" % (c2, s2)
         out.append(" ".join(v))
+        if rng.random() < 0.25:
+            # a longer chain: two or three more relatives of the relative before the original comes back
+            for _ in range(rng.randrange(2, 4)):
+                c2 = c2 + rng.choice((1, -1, 1 << 64, -(1 << 64), 10, -10))
+                s3 = min(18, max(0, s2 + rng.choice((0, 0, 1, -1))))
+                if abs(c2) <= M:
+                    v[i] = "D%d:%d" % (c2, s3)
+                    out.append(" ".join(v))
         out.append(r)
     return out
 
